@@ -16,6 +16,7 @@ ENTRIES = [(H.HYP, q) for q in (
 
 
 def run(ctx):
+    ctx.do(DT.rule_contra1, ["geometry_tools/hyperbolic.py"])
     ctx.do(H.rule_r1)
     ctx.do(SI.rule_eig1, only={"Hyperplane.from_reflection", "Isometry._fixpoint_data"})
     ctx.do(SH.rule_ax1, [SH.CORE, H.HYP], scope=ctx.scope(ENTRIES))
